@@ -416,6 +416,11 @@ class C12(Check):
         reqs = []
         for r in range(rounds):
             ops = [MM.gen_lazy(rng, rng.randint(1, 6)) for _ in range(len(MM.LAZY_PATTERNS) + len(props))]
+            if r == 0:
+                # the catalogue patterns meet every catalogue text once, in the order of the catalogue (so that the
+                # same pattern with other flags is used right after its twin)
+                for k in range(len(MM.LAZY_PATTERNS)):
+                    ops[k] = [('match', t) for t in MM.LAZY_TEXTS] + [('search', t) for t in MM.LAZY_TEXTS[:3]]
             reqs.append({'mode': 'lazy', 'ops': ops, 'profile_props': props})
         results = list(self.pool.map(run_worker, reqs))
         lines, items = [], []
